@@ -4,6 +4,7 @@ import (
 	"bytes"
 	"errors"
 	"fmt"
+	"io"
 	"testing"
 	"time"
 
@@ -273,13 +274,14 @@ func (r *wRun) run(c c17WCase) {
 		if c.OnlyFirst && nsinks > 1 {
 			return &inst.Sink{Cap: 48<<20 + 2*total}
 		}
-		return &inst.Sink{Cap: 48<<20 + 2*total, FailAt: c.SinkFail, Sticky: c.Sticky, FailWith: []error{nil, inst.ErrInjectedWrapsEOF, inst.ErrInjectedWrapsUnexpectedEOF}[c.FailKind%3]}
+		return &inst.Sink{Cap: 48<<20 + 2*total, FailAt: c.SinkFail, Sticky: c.Sticky, FailWith: []error{nil, inst.ErrInjectedWrapsEOF, inst.ErrInjectedWrapsUnexpectedEOF, io.EOF}[c.FailKind%4]}
 	}
 	// a call that reports the injected sink failure puts the object into its error state: from then on, until Reset,
 	// calls may fail but must neither hang nor panic
+	var sink *inst.Sink
 	sinkReported := false // a call of the current epoch has returned the injected sink failure
 	injected := func(err error) bool {
-		if err != nil && c.SinkFail > 0 && errors.Is(err, inst.ErrInjected) {
+		if err != nil && c.SinkFail > 0 && (errors.Is(err, inst.ErrInjected) || (c.FailKind%4 == 3 && errors.Is(err, io.EOF) && len(sink.FailedAt) > 0)) {
 			if c.OnlyFirst && nsinks > 1 {
 				// the sink of this epoch is healthy: the failure comes from an earlier epoch, across a Reset
 				return false
@@ -290,7 +292,7 @@ func (r *wRun) run(c c17WCase) {
 		}
 		return false
 	}
-	sink := newSink()
+	sink = newSink()
 	w := lz4.NewWriter(sink)
 	for i, op := range c.Ops {
 		r.cur = i
@@ -642,7 +644,7 @@ func drawC17WAfterFailure(t *rapid.T) c17WCase {
 	var c c17WCase
 	c.SinkFail = rapid.IntRange(1, 5).Draw(t, "sinkfail")
 	c.Sticky = rapid.Bool().Draw(t, "sticky")
-	c.FailKind = rapid.IntRange(0, 2).Draw(t, "failkind")
+	c.FailKind = rapid.IntRange(0, 3).Draw(t, "failkind")
 	c.OnlyFirst = rapid.Bool().Draw(t, "onlyfirst")
 	d := &optDelta{BS: ip(4), Conc: ip(rapid.SampledFrom([]int{1, 1, 2, 4}).Draw(t, "conc"))}
 	if rapid.IntRange(0, 3).Draw(t, "legacy?") == 0 {
@@ -741,7 +743,7 @@ func drawC17W(t *rapid.T) c17WCase {
 		// histories that go on after a sink failure (without Reset: may fail, must not hang or panic; after Reset: as new)
 		c.SinkFail = rapid.IntRange(1, 8).Draw(t, "sinkfail")
 		c.Sticky = rapid.Bool().Draw(t, "sticky")
-		c.FailKind = rapid.IntRange(0, 2).Draw(t, "failkind")
+		c.FailKind = rapid.IntRange(0, 3).Draw(t, "failkind")
 		c.OnlyFirst = rapid.Bool().Draw(t, "onlyfirst")
 	}
 	return c
